@@ -249,6 +249,8 @@ pub struct Prog {
     pub items: Vec<Item>,
     /// namespace path (names) of each function, for qualified calls
     pub func_ns: Vec<Vec<Name>>,
+    /// namespace path of the static variables declared inside a namespace
+    pub global_ns: std::collections::HashMap<Name, Vec<Name>>,
     pub raws: Vec<Vec<Frag>>,
     pub scene: SceneInfo,
 }
@@ -1488,6 +1490,10 @@ impl<'a> Gen<'a> {
         };
         self.cur_ns.push(name);
         self.prog.items.push(Item::NamespaceBegin(name));
+        // half of the namespaces start with a static variable of their own
+        if self.prof.statics && self.pick(2) == 0 {
+            self.gen_static();
+        }
     }
 
     fn close_ns(&mut self) {
@@ -1554,6 +1560,9 @@ impl<'a> Gen<'a> {
         };
         self.callable = saved;
         let idx = self.prog.globals.len();
+        if !self.cur_ns.is_empty() {
+            self.prog.global_ns.insert(name, self.cur_ns.clone());
+        }
         self.prog.globals.push(Global { name, ty: ty.clone(), storage: if is_const { "static const" } else { "static" }, init, init_list });
         self.prog.items.push(Item::Global(idx));
         self.statics.push(VarInfo { name, ty, is_const, frozen: false, is_static: !is_const });
@@ -1758,6 +1767,10 @@ impl<'a> Gen<'a> {
                         share = Some(cands[self.pick(cands.len())]);
                     }
                 }
+            }
+            // static variables declared inside the namespace; referenced from inside and (qualified) from outside
+            if self.prof.statics && !self.cur_ns.is_empty() && self.pick(3) == 0 {
+                self.gen_static();
             }
             let fi = self.gen_func(share);
             i += 1;
@@ -2116,6 +2129,8 @@ pub struct Renderer<'a> {
     pub prog: &'a Prog,
     /// name table override (renaming)
     pub names: &'a [String],
+    /// namespace of the function being rendered
+    pub cur_ns: std::cell::RefCell<Vec<Name>>,
 }
 
 impl Renderer<'_> {
@@ -2184,7 +2199,19 @@ impl Renderer<'_> {
     pub fn expr(&self, e: &E, out: &mut String) {
         match e {
             E::Lit(s, _) => out.push_str(s),
-            E::Var(n, _) => out.push_str(self.n(*n)),
+            E::Var(n, _) => {
+                // a static of a namespace: unqualified where that is enough (every other one), else fully qualified
+                if let Some(ns) = self.prog.global_ns.get(n) {
+                    let inside = self.cur_ns.borrow().starts_with(ns);
+                    if !(inside && *n % 2 == 0) {
+                        for part in ns {
+                            out.push_str(self.n(*part));
+                            out.push_str("::");
+                        }
+                    }
+                }
+                out.push_str(self.n(*n))
+            }
             E::EnumVal(ei, v) => {
                 out.push_str(self.n(self.prog.enums[*ei].name));
                 out.push_str("::");
@@ -2561,7 +2588,11 @@ impl Renderer<'_> {
                     }
                     out.push_str(";\n");
                 }
-                Item::Func(i) => self.func(&self.prog.funcs[*i], &mut out, lvl),
+                Item::Func(i) => {
+                    *self.cur_ns.borrow_mut() = self.prog.func_ns.get(*i).cloned().unwrap_or_default();
+                    self.func(&self.prog.funcs[*i], &mut out, lvl);
+                    self.cur_ns.borrow_mut().clear();
+                }
                 Item::Resource(i) => {
                     let r = &self.prog.resources[*i];
                     Self::ind(&mut out, lvl);
@@ -2622,7 +2653,7 @@ impl Renderer<'_> {
 }
 
 pub fn render(prog: &Prog) -> String {
-    Renderer { prog, names: &prog.names }.render()
+    Renderer { prog, names: &prog.names, cur_ns: Default::default() }.render()
 }
 
 /// Generate an executable-subset program and its source text.
